@@ -91,16 +91,21 @@ Theorem C18_decode_all_or_nothing_partial :
 Proof. exact decode_spec. Qed.
 Print Assumptions C18_decode_all_or_nothing_partial.
 
-(* non-vacuity.  Keys: 10 = m2.xmi, 20 = ext.xmi (alias key 21), 30 = main.xmi (alias 31).
-   m2 asks for ext, ext asks for main; then m2 fails: ext and main stay with their
-   aliases, m2 is gone.  A second scenario: the nested load fails, nothing stays. *)
+(* non-vacuity.  Keys: 10 = m2.xmi, 20 = ext.xmi, 30 = main.xmi (the strings "ext.xmi" = 21 and
+   "main.xmi" = 31 as written in the hrefs; relative hrefs normalise to 20 / 30, so no alias is kept).
+   m2 asks for ext, ext asks for main; then m2 fails: ext and main stay, m2 is gone.
+   Second scenario: the nested load fails, nothing stays.  Third: a cycle back to the requester is
+   answered from the registry.  Fourth: a MAPPED uri (string 41 normalises to 42 but is loaded from 40)
+   keeps its alias, which survives the failure of the requester and answers the next request. *)
 Example C18_witness :
-  get_resource 10 (Script [(21, 20, Script [(31, 30, Script [] true)] true)] false) rs_empty
-    = (LErr, {| resources := [(20, 1); (30, 2); (31, 2); (21, 1)]; next_rid := 3 |}) /\
-  get_resource 10 (Script [(21, 20, Script [] false)] true) rs_empty
+  get_resource 10 (Script [(21, 20, 20, Script [(31, 30, 30, Script [] true)] true)] false) rs_empty
+    = (LErr, {| resources := [(20, 1); (30, 2)]; next_rid := 3 |}) /\
+  get_resource 10 (Script [(21, 20, 20, Script [] false)] true) rs_empty
     = (LErr, {| resources := []; next_rid := 2 |}) /\
-  get_resource 10 (Script [(21, 20, Script [(11, 10, Script [] true)] true)] true) rs_empty
-    = (LOk 0, {| resources := [(10, 0); (20, 1); (21, 1)]; next_rid := 2 |}) /\
+  get_resource 10 (Script [(21, 20, 20, Script [(11, 10, 10, Script [] true)] true)] true) rs_empty
+    = (LOk 0, {| resources := [(10, 0); (20, 1)]; next_rid := 2 |}) /\
+  get_resource 10 (Script [(41, 42, 40, Script [] true); (41, 42, 40, Script [] false)] false) rs_empty
+    = (LErr, {| resources := [(40, 1); (41, 1)]; next_rid := 2 |}) /\
   decode (El true [El true []; El false [El true []]; El true []]) 0 = Err ValueErr /\
   decode (El true [El true []; El true [El true []]]) 0 = Ok 4.
 Proof. vm_compute. repeat split; reflexivity. Qed.
